@@ -29,6 +29,8 @@ from typing import Any
 from . import env
 
 WORKERS = int(os.environ.get('VERIF_WORKERS', '16'))
+#: evidence and replay files go here; only mutant trials (tools/seed_eval.py) point this away from /verif
+OUT_DIR = os.environ.get('VERIF_OUT', env.VERIF)
 MAX_REPLAY_FILES = 10
 
 
@@ -242,7 +244,7 @@ def run(check, tier: str, seed: int, replay: str | None = None) -> int:
 
     replay_paths = []
     if new_violations:
-        replay_dir = os.path.join(env.VERIF, 'replays', property_id)
+        replay_dir = os.path.join(OUT_DIR, 'replays', property_id)
         os.makedirs(replay_dir, exist_ok=True)
         seen_fp: dict[str, int] = {}
         for index, violation in new_violations:
@@ -309,8 +311,8 @@ def run(check, tier: str, seed: int, replay: str | None = None) -> int:
         'wall_s': round(wall, 3),
         'violations': len(new_violations),
     }
-    os.makedirs(os.path.join(env.VERIF, 'evidence'), exist_ok=True)
-    evidence_path = os.path.join(env.VERIF, 'evidence', f'{property_id}.json')
+    os.makedirs(os.path.join(OUT_DIR, 'evidence'), exist_ok=True)
+    evidence_path = os.path.join(OUT_DIR, 'evidence', f'{property_id}.json')
     with open(evidence_path, 'w') as f:
         json.dump(evidence, f, indent=1, default=repr)
         f.write('\n')
